@@ -107,6 +107,8 @@ def make_array(spec):
     obj, rec, data, lock, getitem = build_source(spec)
     chunks = tuple(tuple(c) for c in spec["chunks"])
     x = da.from_array(obj, chunks=chunks, lock=lock, getitem=getitem, inline_array=spec.get("inline", False))
+    if rec is not None:
+        rec.custom_getitem = getitem
     return x, rec, data, lock
 
 
@@ -735,6 +737,11 @@ def fam_public(chk, tier):
             chk.violation("source read while the lock passed to from_array was not held", dict(spec),
                           signature={"fn": "from_array", "class": "unlocked-read", "getitem": spec.get("getitem")})
         reqs = data_requests(rec)
+        gi = getattr(rec, "custom_getitem", None)
+        if gi is not None and len(reqs) > gi.calls:
+            chk.violation(f"the source was read {len(reqs)} time(s) but the getitem= reader passed to from_array was called {gi.calls} time(s): "
+                          "some reads bypass the custom reader", dict(spec), signature={"fn": "from_array", "class": "custom-getitem-bypassed",
+                                                                                        "has_rechunk": any(op == "rechunk" for op, _ in spec["ops"])})
         cnt = coverage(data, reqs)
         # which source elements does the result need?  data is arange: the values are the flat positions
         need = np.zeros(data.size, dtype=np.int64)
